@@ -71,7 +71,7 @@ def run_members(I, node, ordinal, it, st, spec):
         raise Unsupported("member loop over %r" % (it,))
     h = st.heap[it.oid]
     y = z3.Const("y!dom", Val)
-    dom = h.payload if h.kind == "set" else z3.Lambda([y], h.payload[y] != Opt.none)
+    dom = h.payload if h.kind == "set" else mk_lambda(y, h.payload[y] != Opt.none)
     for (nm, c) in spec.inv(EMPTY_SET, _view(st, spec), st):
         I.require(st, c, "inv-init#%d:%s" % (ordinal, nm))
     out = []
